@@ -42,6 +42,7 @@ LEVEL_TEXT = (
     "uses the rule in force with max width and the final trim leaves exactly the requested widths; unlinked sides keep the basic padding. Necessary "
     "conditions of the behavioural statement for every table (each link is handled by this code alone); xarray's isel/concat are trusted, corner "
     "cells are outside this property."
+    " Link tables are also evaluated with links as lists and 0/1 reverse flags, the self-link under every Grid-level default, and source arrays are never written in place."
 )
 LEVEL_NOTE = "Trusted: xarray isel/rename/concat semantics; orientation-map geometry; square faces."
 
